@@ -55,6 +55,22 @@ fn stress_case(rep: &mut Report, rng: &mut Rng, nthreads: usize, nops: usize, wi
                     let mut msgs: Vec<Msg> = Vec::new();
                     for _ in 0..nops {
                         let target = if rng.chance(1, 2) { t0.clone() } else { mine.clone() };
+                        // now and then an append addressed to an id that names no thread but — as a
+                        // file name in the cache directory — coincides with one of a real thread's
+                        // cache files or with the store's own files: it must not start a stream
+                        if rng.chance(1, 10) {
+                            let alias = match rng.below(6) {
+                                0 => format!("{target}.mr.v1"),
+                                1 => format!("{target}.comp.v1"),
+                                2 => format!("{target}.seek.v1"),
+                                3 => "../events".to_string(),
+                                4 => format!("../continuity_streams/{target}"),
+                                _ => format!("{target}.mr.idx.v1"),
+                            };
+                            let _ = store.append_message(&alias, "u".into(), "cli".into(), "to an alias".into());
+                            let _ = store.append_run_spawned(&alias, "m", "run-a", "u".into(), "cli".into());
+                            continue;
+                        }
                         match rng.below(12) {
                             0..=4 => random_history(&store, &target, &mut rng, 1, &mut msgs),
                             5 => {
